@@ -4,7 +4,7 @@ from contracts import c01, enc
 LEVEL = "other"
 TRUSTED = ["decoder precondition R1-R3 (unit-flow structure of every layer) is what the encoder guarantees: checked per instance in the bounded part, not proved"]
 ASSUMPTIONS = ["A2 networkx topological order / successors()", "R1-R3 of contracts/c01.py"]
-EXPLANATION = ("Proved (PyVC, unbounded): the ENCODER AbstractPathModelDAG._encode_paths adds exactly: one 0/1 indicator per (edge, layer), one unit (at most one if empty paths are allowed) leaving the source and conservation at every inner node in every layer - the hypothesis from which the decoder proof starts; AbstractSourceSinkGraph._augment_with_source_sink connects the global source exactly to the nodes without incoming edges or declared as additional starts (sink symmetric) and keeps the caller's edges; the DAG decoder get_solution_paths turns ANY binary edge assignment satisfying the unit-flow precondition into exactly k lists, each empty or a simple "
+EXPLANATION = ("Proved (PyVC, unbounded): the ENCODER AbstractPathModelDAG._encode_paths adds exactly: one 0/1 indicator per (edge, layer), one unit (at most one if empty paths are allowed) leaving the source and conservation at every inner node in every layer - the hypothesis from which the decoder proof starts; AbstractWalkModelDiGraph._encode_walks likewise adds exactly the rows of the walk formulation (cyclic models); AbstractSourceSinkGraph._augment_with_source_sink connects the global source exactly to the nodes without incoming edges or declared as additional starts (sink symmetric) and keeps the caller's edges; the DAG decoder get_solution_paths turns ANY binary edge assignment satisfying the unit-flow precondition into exactly k lists, each empty or a simple "
                "source-to-sink route of G made of selected edges. Bounded: every exported class x small universe x options: routes valid in the caller's graph, counts, weights, slacks (rc/p_C01.py).")
 
 
